@@ -100,6 +100,8 @@ func c16Gen(tier string, emit func(any)) {
 			}
 		}
 	}
+	// a file that cannot be read after a file that does not parse (the run is made by an unprivileged user)
+	emit(&C16Case{Family: "unreadable-after-unparseable"})
 	// the number of failing files does not matter (an exit status is one byte)
 	for _, n := range []int{255, 256, 257, 512} {
 		emit(&C16Case{Family: "many-failures", Position: n})
@@ -370,6 +372,33 @@ func c16Run(env *core.Env, ci any) core.Outcome {
 	c := ci.(*C16Case)
 	if c.Family == "logical" {
 		return c16Logical(env, c)
+	}
+	if c.Family == "unreadable-after-unparseable" {
+		o := core.Outcome{Class: c.Family, Nontrivial: true, Transitions: 1}
+		if os.Geteuid() != 0 {
+			return core.Outcome{Skip: "needs root to become an unprivileged user"}
+		}
+		root := filepath.Join(env.Scratch, "c16u")
+		tree := map[string]string{"p.patch": c16Patch, "t/a_bad.go": "package p\n\nfunc broken( {\n", "t/b_unreadable.go": "package p\n\nfunc u() {\n\tfoo(1)\n}\n", "t/c_ok.go": "package p\n\nfunc g() {\n\tfoo(2)\n}\n"}
+		if err := drive.FreshDir(root); err != nil {
+			panic(err)
+		}
+		defer os.RemoveAll(root)
+		if err := drive.WriteTree(root, tree); err != nil {
+			panic(err)
+		}
+		os.Chmod(env.Scratch, 0o755)
+		os.Chmod(root, 0o755)
+		for _, n := range []string{"t", "t/a_bad.go", "t/b_unreadable.go", "t/c_ok.go", "p.patch"} {
+			os.Chown(filepath.Join(root, n), 65534, 65534)
+		}
+		os.Chmod(filepath.Join(root, "t", "b_unreadable.go"), 0)
+		r := c16Exec(env, root, nil, []string{"setpriv", "--reuid=65534", "--regid=65534", "--clear-groups"}, "", []string{"-p", filepath.Join(root, "p.patch"), "a_bad.go", "b_unreadable.go", "c_ok.go"})
+		if r.killed || r.exit == 0 || !strings.Contains(r.stderr, "a_bad.go") || !strings.Contains(r.stderr, "b_unreadable.go") || !strings.Contains(r.stderr, "permission denied") {
+			o.FindingKey = "C16:diagnostic-incomplete/unreadable-after-unparseable"
+			o.Violation = fmt.Sprintf("[a file that does not parse, then a file that cannot be read] exit status %d; stderr must name both files and their causes: %q", r.exit, r.stderr)
+		}
+		return o
 	}
 	if c.Family == "many-failures" {
 		// Position files that do not parse (and one that does): the run fails, whatever their number
